@@ -17,6 +17,11 @@ pub trait ActixStream: Sized {
     spec fn next_write_ready(&self) -> Poll<io::Result<Ready>>;
     fn poll_read_ready(&self, cx: &mut Context<'_>) -> (r: Poll<io::Result<Ready>>) ensures r == self.next_read_ready();
     fn poll_write_ready(&self, cx: &mut Context<'_>) -> (r: Poll<io::Result<Ready>>) ensures r == self.next_write_ready();
+    /// the socket's own AsyncWrite side (reached when code goes AROUND the TLS session through `get_mut()`): it moves
+    /// bytes of the transport, it does nothing for the session's buffered records
+    fn poll_flush(&mut self, cx: &mut Context<'_>) -> (r: Poll<io::Result<()>>);
+    fn poll_shutdown(&mut self, cx: &mut Context<'_>) -> (r: Poll<io::Result<()>>);
+    fn poll_write(&mut self, cx: &mut Context<'_>, buf: &[u8]) -> (r: Poll<io::Result<usize>>);
 }
 impl<IO> InnerTls<IO> {
     pub uninterp spec fn plain_out(&self) -> Seq<u8>;
